@@ -185,9 +185,23 @@ pub fn emit(out: &mut Out, worker: &mut Worker, text: &str, rng: &mut Rng, thoro
                     hfail.get_or_insert(format!("no value and no error on {:?}", w));
                 }
             }
-            WResult::Ok(_) => {
+            WResult::Ok(p) => {
                 body.push(0);
                 stats.3 += 1;
+                // a parse that may have run out of its recovery budget is not compared with the model, but what
+                // does not depend on the budget still holds of it: errors at strictly increasing positions, at
+                // least three lexemes apart (or at the end of the input), every error but the last repaired
+                if which == 7 {
+                    for k in 1..p.errors.len() {
+                        let (a, b) = (p.errors[k - 1].laidx, p.errors[k].laidx);
+                        if b <= a || (b < a + 3 && b < w.len()) || p.errors[k - 1].repairs.is_empty() {
+                            hfail.get_or_insert(format!(
+                                "errors-do-not-progress: a parse that took {} ms reports {} errors on the {} lexemes {:?}; error {} at lexeme {} ({} repair sequences) is followed by an error at lexeme {}",
+                                p.wall_ms, p.errors.len(), w.len(), w, k - 1, a, p.errors[k - 1].repairs.len(), b));
+                            break;
+                        }
+                    }
+                }
             }
             WResult::Hang => {
                 body.push(0);
@@ -567,6 +581,12 @@ pub fn run_prop(a: &Args, prop: &str, pnum: u64) {
             let w0: &[&[u32]] = &[&[], &[0]];
             emit(&mut out, &mut worker, &g, &mut rng, a.thorough, "witness", prop, Some((w0, 1)), None);
         }
+        if prop == "C06" {
+            // 2^11 equally good repair sequences for one error: all of them are reported, in the documented order
+            let g = format!("%start S\n%%\nS: 'x' {} 'y';\nT: 'a' | 'b';", vec!["T"; 11].join(" "));
+            let w0: &[&[u32]] = &[&[0, 1]];
+            emit(&mut out, &mut worker, &g, &mut rng, a.thorough, "witness", prop, Some((w0, 1)), None);
+        }
         {
             // more than a hundred independent, repairable errors in one input: every one is reported with
             // its repairs and the parse still returns a value (tokens: a 0, b 1, c 2, d 3, ; 4)
@@ -591,6 +611,11 @@ pub fn run_prop(a: &Args, prop: &str, pnum: u64) {
         let w4: &[&[u32]] = &[&[2, 1, 2, 1, 2], &[2, 1, 2, 1, 2, 0, 2]];
         emit(&mut out, &mut worker, "%start E\n%left 'AND'\n%nonassoc 'LT'\n%%\nE: E 'AND' E | E 'LT' E | 'N';", &mut rng, a.thorough, "witness", prop, Some((w4, 1)), None);
         emit(&mut out, &mut worker, "%start E\n%left 'AND'\n%nonassoc 'LT'\n%%\nE: E 'AND' E | E 'LT' E | 'N';", &mut rng, a.thorough, "witness", prop, Some((w4, 1)), Some(vec![1, 1, 3, 1]));
+        // every minimum-cost repair has to insert the avoided token (a missing operand at the end of the input,
+        // before `)`, before an operator): it is ranked last but still replayed, and the parse goes on
+        // (tokens: n 0, + 1, * 2, ( 3, ) 4)
+        let w5: &[&[u32]] = &[&[0, 1], &[3, 4], &[0, 1, 0, 1], &[3, 0, 2, 4, 1, 0], &[0, 1, 3, 4, 2, 0, 1]];
+        emit(&mut out, &mut worker, "%start E\n%avoid_insert 'n'\n%%\nE: E '+' T | T; T: T '*' F | F; F: '(' E ')' | 'n';", &mut rng, a.thorough, "witness", prop, Some((w5, 1)), None);
         // a Delete-ended and an Insert-ended search node reach the same stack and position
         let w3: &[&[u32]] = &[&[0, 5, 3, 3, 3], &[0, 5, 3, 3], &[0, 5]];
         emit(&mut out, &mut worker, "%start S\n%%\nS: 'a' M 't' 'w' 'k' 'k' 'k'; M: | 'u' 'y';", &mut rng, a.thorough, "witness", prop, Some((w3, 1)), None);
